@@ -5,7 +5,7 @@ import os
 
 V = os.path.dirname(os.path.dirname(os.path.abspath(__file__)))
 
-FIXES = ['b9fb549 fix: a running component that is asked to finish also looks at its engine, not only at notifications', '2d30979 fix: a component that is stopped while its restart is being decided is not launched again', '9ebbf5c fix: a repeating engine has not exited while its monitor is inside an iteration', '5d7c116 fix: a repeating engine counts as alive from the moment its restart is decided', '620a429 fix: the stage-completion hook does not hold opt_lock while it stops the stage', '983c28b fix: an engine that was shut down while its restart was being prepared does not start a task', '188921f fix: an input that is staged as a link or a copied directory can be staged again', '33108c1 fix: the completion of the workflow can be observed after a restart from a later stage', '585e755 fix: a component named like a folder of the instance keeps its consumers', '2a623d9 fix: components that were never staged are recorded when the stage-completion hook stops the stage', 'cbcc319 fix: an instance keeps its name when it is loaded again', 'e15941d fix: progress and cost are numbers again when the status file is read back', 'abbe6aa fix: the placeholders of a DoWhile are replicated with the variables of its own stages', 'ce378d1 fix: the variables of a platform created by its first variable have both scopes', '45e2b94 fix: an interrupted consolidation of the output directory is completed when the instance is opened', '1ae9c37 fix: only stage<N>.conf defines a stage of a DOSINI package', 'd4273eb fix: the DOSINI instance description is replaced file by file, never truncated', '49ea202 fix: a monitor that gives up on an unreliable file system ends like a cancelled one', 'bc502c6 fix: a component stopped while it is suspended for system instability keeps its final state', '2c41961 fix: a DoWhile does not start a new iteration once the controller is stopping', "f31ff37 fix: the stored instance description layers the platform's environments over the default ones", "fa085b6 fix: the engine's state is built from a consistent pair of task and finish time", 'd46d796 fix: output.txt is converted to JSON without treating any line as a comment', '52e4650 fix: a configuration resolved with ignore_convert_errors is not cached', 'b05e4f8 fix: the location of a reference to a looped component is that of its latest iteration', '190b6e0 fix: a restarted run keeps the key-outputs that are already listed', '1d285ac fix: the instance description lists its components in a stable order', 'e7e6437 fix: a DoWhile bound to another DoWhile can instantiate its next iteration', 'e2e3ff8 fix: imported documents may reference each other whatever the order of the $import entries', 'b45635a fix: every use of a reference in a string of a DoWhile component is rewritten', '1eb7874 fix: a component whose restart is refused for lack of restarts receives its final state', '532126a fix: an observer waits for a subject that was put down before it ever launched', 'd8fc495 fix: a repeating engine whose task cannot be submitted after its producers finished stops', '6574790 fix: components written with YAML anchors do not share their definition', 'c0b76da fix: cache entries of components whose name is special in a regular expression are invalidated', "fba04e1 fix: the stored instance description keeps the precedence of the platform's global blueprint", '1399b94 fix: a loop can iterate after a restart from a stage that follows a finished loop', '36600e0 fix: a DoWhile bound to a replicated producer can instantiate its next iteration', '9c19d56 fix: references of a looped component are rewritten in one pass', 'c26827f fix: a user variable file given more than once is layered at its last position', '3621346 fix: state of a DoWhile document follows its own condition component', 'da09844 fix: loop iterations are ordered numerically, not as strings', '57a5672 fix: multi-line key-output descriptions keep output.txt parsable', 'c40342c fix: output.txt is converted to JSON without configparser interpolation', 'e963c27 fix: error description read back from status.txt keeps its outer whitespace', '0d4bbfc fix: Status.writeToStream escapes a copy of the error description', '5cdb903 fix: status_details.json is not replaced by a partially written temporary file', 'e4f1411 fix: instance description and manifest are replaced atomically', 'd84b6cf fix: user variable files are layered in the order given', '89bfe12 fix: resubmission cap also applies when SubmissionFailed is listed in restartHookOn', '0c051f0 fix: a component receives exactly one final state', '9e3a59a fix: controller ignores a POSTMORTEM notification whose engine is alive again', '98a674a fix: ComponentState publishes snapshots of its state, not the live dictionary', 'd4798f8 fix: repeating engine that never launched observes its finished producers once', 'd4a57bc fix: repeating engine honours kill-after-producers-done-delay between executions']
+FIXES = ['6a70867 fix: a replicated component named like a folder of the instance keeps its aggregating consumer', 'b9fb549 fix: a running component that is asked to finish also looks at its engine, not only at notifications', '2d30979 fix: a component that is stopped while its restart is being decided is not launched again', '9ebbf5c fix: a repeating engine has not exited while its monitor is inside an iteration', '5d7c116 fix: a repeating engine counts as alive from the moment its restart is decided', '620a429 fix: the stage-completion hook does not hold opt_lock while it stops the stage', '983c28b fix: an engine that was shut down while its restart was being prepared does not start a task', '188921f fix: an input that is staged as a link or a copied directory can be staged again', '33108c1 fix: the completion of the workflow can be observed after a restart from a later stage', '585e755 fix: a component named like a folder of the instance keeps its consumers', '2a623d9 fix: components that were never staged are recorded when the stage-completion hook stops the stage', 'cbcc319 fix: an instance keeps its name when it is loaded again', 'e15941d fix: progress and cost are numbers again when the status file is read back', 'abbe6aa fix: the placeholders of a DoWhile are replicated with the variables of its own stages', 'ce378d1 fix: the variables of a platform created by its first variable have both scopes', '45e2b94 fix: an interrupted consolidation of the output directory is completed when the instance is opened', '1ae9c37 fix: only stage<N>.conf defines a stage of a DOSINI package', 'd4273eb fix: the DOSINI instance description is replaced file by file, never truncated', '49ea202 fix: a monitor that gives up on an unreliable file system ends like a cancelled one', 'bc502c6 fix: a component stopped while it is suspended for system instability keeps its final state', '2c41961 fix: a DoWhile does not start a new iteration once the controller is stopping', "f31ff37 fix: the stored instance description layers the platform's environments over the default ones", "fa085b6 fix: the engine's state is built from a consistent pair of task and finish time", 'd46d796 fix: output.txt is converted to JSON without treating any line as a comment', '52e4650 fix: a configuration resolved with ignore_convert_errors is not cached', 'b05e4f8 fix: the location of a reference to a looped component is that of its latest iteration', '190b6e0 fix: a restarted run keeps the key-outputs that are already listed', '1d285ac fix: the instance description lists its components in a stable order', 'e7e6437 fix: a DoWhile bound to another DoWhile can instantiate its next iteration', 'e2e3ff8 fix: imported documents may reference each other whatever the order of the $import entries', 'b45635a fix: every use of a reference in a string of a DoWhile component is rewritten', '1eb7874 fix: a component whose restart is refused for lack of restarts receives its final state', '532126a fix: an observer waits for a subject that was put down before it ever launched', 'd8fc495 fix: a repeating engine whose task cannot be submitted after its producers finished stops', '6574790 fix: components written with YAML anchors do not share their definition', 'c0b76da fix: cache entries of components whose name is special in a regular expression are invalidated', "fba04e1 fix: the stored instance description keeps the precedence of the platform's global blueprint", '1399b94 fix: a loop can iterate after a restart from a stage that follows a finished loop', '36600e0 fix: a DoWhile bound to a replicated producer can instantiate its next iteration', '9c19d56 fix: references of a looped component are rewritten in one pass', 'c26827f fix: a user variable file given more than once is layered at its last position', '3621346 fix: state of a DoWhile document follows its own condition component', 'da09844 fix: loop iterations are ordered numerically, not as strings', '57a5672 fix: multi-line key-output descriptions keep output.txt parsable', 'c40342c fix: output.txt is converted to JSON without configparser interpolation', 'e963c27 fix: error description read back from status.txt keeps its outer whitespace', '0d4bbfc fix: Status.writeToStream escapes a copy of the error description', '5cdb903 fix: status_details.json is not replaced by a partially written temporary file', 'e4f1411 fix: instance description and manifest are replaced atomically', 'd84b6cf fix: user variable files are layered in the order given', '89bfe12 fix: resubmission cap also applies when SubmissionFailed is listed in restartHookOn', '0c051f0 fix: a component receives exactly one final state', '9e3a59a fix: controller ignores a POSTMORTEM notification whose engine is alive again', '98a674a fix: ComponentState publishes snapshots of its state, not the live dictionary', 'd4798f8 fix: repeating engine that never launched observes its finished producers once', 'd4a57bc fix: repeating engine honours kill-after-producers-done-delay between executions']
 
 E1_NOTE = ("trusted base: sim/kernel.py (baton-passing scheduler, virtual clock) faithfully replaces threading/time/"
            "datetime/ThreadPoolExecutor; the scripted SimTask stands for every backend; pre-emption at synchronisation "
